@@ -433,7 +433,9 @@ class JaxImplicitComponent(ImplicitComponent):
             The partials to compute.
         """
         J = self._jac_func_(self._tangents['rev'], tuple(chain(inputs.values(), outputs.values())))
-        J = _jax2np(J).T
+        # compute_primal takes the inputs first, but jacobian columns have the outputs first
+        nins = inputs.nvars()
+        J = _jax2np(tuple(J[nins:]) + tuple(J[:nins])).T
         if self._coloring_info.coloring is not None:
             J = self._coloring_info.coloring._expand_jac(J, 'rev')
             partials.set_csc_jac(self, J)
@@ -495,9 +497,13 @@ class JaxImplicitComponent(ImplicitComponent):
         """
         if self._tangents[direction] is None:
             if direction == 'fwd':
-                self._tangents[direction] = get_vmap_tangents(tuple(chain(self._inputs.values(),
-                                                                          self._outputs.values())),
-                                                              direction, fill=1., coloring=coloring)
+                # jacobian (and coloring) columns have the outputs first, but compute_primal takes
+                # the inputs first
+                nouts = self._outputs.nvars()
+                tangents = get_vmap_tangents(tuple(chain(self._outputs.values(),
+                                                         self._inputs.values())),
+                                             direction, fill=1., coloring=coloring)
+                self._tangents[direction] = tangents[nouts:] + tangents[:nouts]
             else:
                 self._tangents[direction] = get_vmap_tangents(tuple(self._outputs.values()),
                                                               direction, fill=1., coloring=coloring)
